@@ -638,6 +638,30 @@ func (e *SpecEnv) call(n *ast.CallExpr) TV {
 			e.fail("typeis: unknown type")
 		}
 		return TV{T: fmt.Sprintf("(= (itag %s) %d)", v.T, vc.ctx.tagOf(t)), Ty: tBool}
+	case "familyAgree":
+		// familyAgree(x, field): every field of x's struct that points to the same
+		// struct type is nil or agrees with x on `field` (generated from the struct
+		// definition, so a newly added pointer field is covered automatically)
+		x := arg(0)
+		fid, ok := n.Args[1].(*ast.Ident)
+		if !ok {
+			e.fail("familyAgree(x, field)")
+		}
+		st, elemT, ok := derefStruct(x.Ty)
+		if !ok {
+			e.fail("familyAgree: not a struct pointer")
+		}
+		own := e.selectField(x, fid.Name)
+		conj := []string{"true"}
+		for i := 0; i < st.NumFields(); i++ {
+			ft := st.Field(i).Type()
+			if pt, isP := ft.Underlying().(*types.Pointer); isP && types.Identical(pt.Elem(), elemT) {
+				fv := e.selectField(x, st.Field(i).Name())
+				other := e.selectField(fv, fid.Name)
+				conj = append(conj, fmt.Sprintf("(or (= %s 0) (= %s %s))", fv.T, other.T, own.T))
+			}
+		}
+		return TV{T: "(and " + strings.Join(conj, " ") + ")", Ty: tBool}
 	case "same":
 		a, b := e.unify(arg(0), arg(1))
 		return TV{T: fmt.Sprintf("(= %s %s)", a.T, b.T), Ty: tBool}
